@@ -107,7 +107,7 @@ func feed(path string, delim byte, chunks []string, failAt int) result {
 	fd.Close()
 	select {
 	case <-done:
-	case <-time.After(20 * time.Second):
+	case <-time.After(8 * time.Second):
 		res.hung = true
 		cancel()
 		<-done
@@ -219,7 +219,7 @@ func runC12(run *mc.Run) int {
 	}
 	dir := scratchDir()
 	jobs := make(chan job, 256)
-	var evals, multi int64
+	var evals, multi, hangs, skipped int64
 	var wg sync.WaitGroup
 	var smu sync.Mutex
 	var samples []any
@@ -230,8 +230,15 @@ func runC12(run *mc.Run) int {
 			defer wg.Done()
 			path := filepath.Join(dir, fmt.Sprintf("p%d", wk))
 			for j := range jobs {
+				if atomic.LoadInt64(&hangs) >= 3 {
+					atomic.AddInt64(&skipped, 1)
+					continue // the ingester no longer returns at end-of-stream: already reported
+				}
 				parts := j.parts()
 				r := feed(path, j.delim, parts, j.failAt)
+				if r.hung {
+					atomic.AddInt64(&hangs, 1)
+				}
 				atomic.AddInt64(&evals, 1)
 				if len(parts) > 1 {
 					atomic.AddInt64(&multi, 1)
@@ -306,7 +313,7 @@ func runC12(run *mc.Run) int {
 	emit(job{stream: "tail-only", chunks: []string{"tail", "-only"}, delim: '\n', class: "edge"})
 	close(jobs)
 	wg.Wait()
-	cov := mc.Coverage{Level: "exploration", Evaluations: int(evals), Distinct: int(multi), Exhaustive: complete, Samples: samples,
+	cov := mc.Coverage{Level: "exploration", Evaluations: int(evals), Distinct: int(multi), Exhaustive: complete && skipped == 0, Samples: samples,
 		Rule:  fmt.Sprintf("the real NamedPipeIngester.Ingest on real FIFOs: every byte stream over {a,b,delimiter} of length <=%d x every one of the 2^(len-1) partitions into write(2) calls (FIONREAD handshake: each write is drained before the next), delimiters \\n and NUL; records of 4095..70000 bytes x chunk sizes {1,2,4095,4096,4097,whole}; a callback error at each record index; unterminated tails and the empty stream. Oracle (partition-independent): callback arguments = the delimiter-terminated records in order (one trailing delimiter allowed), nothing after the last delimiter, callback error returned unchanged, end-of-stream returned as an error. distinct_nontrivial = runs whose stream was split over >=2 writes", n),
 		Extra: map[string]any{"runs_per_class": classes, "max_stream_len": n}}
 	cov.Assumptions = []string{"kernel FIFO semantics; a write larger than the pipe buffer may be split by the kernel (affects only which partition was exercised, not the verdict)"}
